@@ -24,14 +24,18 @@ def make_zip(n):
 def run(sess, configs=None, fam='walker'):
     prog = sess.prog
     quick = sess.tier == 'quick'
-    configs = configs or ([(4, 1, False), (4, 1, True), (4, 2, True), (4, 2, False)] if quick else [(5, 1, False), (5, 1, True), (5, 2, True), (5, 2, False)])
-    sess.bounds['walker'] = {'nodes': configs[0][0], 'roots': '1 and 2', 'limit': '0..nodes+3', 'zip members': '0..2', 'ordered': 'both'}
-    for (M, nroots, ordered) in configs:
+    # (nodes, roots, ordered[, WHERE verdicts symbolic]); quick: every row matches; thorough: 4 nodes with a symbolic verdict per row,
+    # 5 nodes without (5 nodes x verdicts x archives x limit does not finish: > 48 000 paths in 20 minutes)
+    configs = configs or ([(4, 1, False), (4, 1, True), (4, 2, True), (4, 2, False)] if quick else
+                          [(4, 1, False, True), (4, 1, True, True), (4, 2, True, True), (4, 2, False, True), (5, 1, False, False), (5, 1, True, False)])
+    configs = [c if len(c) == 4 else (c + (not quick and c[0] <= 4,)) for c in configs]
+    sess.bounds[fam] = {'configurations (nodes, roots, ordered, symbolic WHERE verdicts)': [list(c) for c in configs], 'limit': '0..nodes+3', 'zip members': '0..2'}
+    for (M, nroots, ordered, verdicts) in configs:
         ex = sess.executor(W.models(), unwind=3 * M + 6, maxsteps=400000)
         viol = {}
         st = {'paths': 0}
 
-        def runp(ctx, M=M, nroots=nroots, ordered=ordered):
+        def runp(ctx, M=M, nroots=nroots, ordered=ordered, verdicts=verdicts):
             fs = W.FS(ctx, M, roots=nroots, kinds=(W.FILE, W.DIR), archives=True)
             ctx.ghost['fs'] = fs
             for i in range(nroots, M):
@@ -39,7 +43,7 @@ def run(sess, configs=None, fam='walker'):
             limit = ctx.fresh_bv('limit', 32)
             ctx.assume(ULE(limit, BitVecVal(M + 3, 32)))
             # WHERE verdicts for every possible row, fixed up front (quick tier: no WHERE clause, every row matches)
-            if quick:
+            if not verdicts:
                 ctx.ghost['match_all'] = BoolVal(True)
             for i in range(nroots, M):
                 fs.match_bit(i, None)
@@ -110,8 +114,8 @@ def run(sess, configs=None, fam='walker'):
             sess.violated(name, role, 'limit=%d, %d matching rows, %d handed on: %r' % (lim, tot, len(accepted), accepted),
                           {'limit': lim, 'total': tot, 'accepted': accepted}, cli_replay(fs, m, lim, ordered, nroots), fam)
 
-        n, complete = ex.explore(runp, on_path, time_budget=(150 if quick else 1200))
-        name = '%s M=%d roots=%d %s' % (fam, M, nroots, 'ordered' if ordered else 'unordered')
+        n, complete = ex.explore(runp, on_path, time_budget=(150 if quick else 2400))
+        name = '%s M=%d roots=%d %s%s' % (fam, M, nroots, 'ordered' if ordered else 'unordered', ' (symbolic WHERE verdicts)' if verdicts else '')
         if not complete:
             sess.inconclusive(name, 'time budget exceeded after %d paths' % n, fam)
         elif not viol and not st.get('bad'):
